@@ -1,2 +1,4 @@
 pub mod c02;
+pub mod c07;
+pub mod c08;
 pub mod c12;
